@@ -2,6 +2,7 @@ package props
 
 import (
 	"bufio"
+	"bytes"
 	"fmt"
 	"time"
 
@@ -178,6 +179,25 @@ func (c16) Run(t *tape.Tape, st *Stats) *Violation {
 		rd = bufio.NewReaderSize(src, n)
 		how = fmt.Sprintf("bufio.NewReaderSize(source, %d)", n)
 	}
+	// two-step history: in a quarter of the runs another profile is read first, in
+	// the same run, whose header carries the same profile ID (bytes 84..99) and
+	// otherwise other bytes - ICC.1 computes the ID with flags, intent and the ID
+	// field zeroed, and writers may leave it stale, so equal IDs do not mean equal
+	// headers. What this header decodes to must not depend on that read.
+	earlierRead := t.Intn(4) == 0
+	hseed := t.Draw(1 << 40)
+	if earlierRead {
+		h2 := make([]byte, 128)
+		tape.NewRand(hseed).Fill(h2)
+		copy(h2[36:], "acsp")
+		copy(h2[84:100], hdr[84:100])
+		p2 := refmodel.DrawICC(tape.New(hseed, nil), refmodel.ICCOpts{RawHeader: h2, KeepSize: true, MaxTags: 3})
+		func() {
+			defer func() { recover() }()
+			icc.NewProfileReader(bufio.NewReader(bytes.NewReader(p2.Bytes))).ReadProfile()
+		}()
+		what += " [after an earlier read of another profile with the same profile ID]"
+	}
 	var p *icc.Profile
 	var err error
 	var panicked interface{}
@@ -189,6 +209,8 @@ func (c16) Run(t *tape.Tape, st *Stats) *Violation {
 	deliveryStats(st, src)
 	st.Probe("profile_id_read_straddled_delivery", src.ShortReads > 0 && cfg.Policy != simio.Full)
 	st.Probe("signature_absent", m.Magic != 0x61637370)
+	st.Probe("earlier_read_with_the_same_profile_id", earlierRead)
+	st.Probe("earlier_read_with_the_same_nonzero_profile_id", earlierRead && m.ID != [16]byte{})
 	if src.Delivered >= 128 || m.Magic != 0x61637370 {
 		h := uint64(0)
 		for _, c := range data[:128] {
@@ -204,7 +226,7 @@ func (c16) Run(t *tape.Tape, st *Stats) *Violation {
 		st.Sample(render())
 	}
 	fail := func(field, detail string) *Violation {
-		return &Violation{Class: field, Sig: "header:" + field, Detail: detail + " [" + what + "]", Render: render()}
+		return &Violation{Class: field, Sig: "header:" + field, Detail: detail + " [" + what + "]", Render: render(), OwnHistory: earlierRead}
 	}
 	if panicked != nil {
 		return fail("panic", fmt.Sprintf("ReadProfile panicked: %v", panicked))
